@@ -118,6 +118,27 @@ func vC14QueueFrame(c *vC14Conn) vC14Frame {
 	return f
 }
 
+// vC14CountNullAcks parses the frames a side wrote and counts acks carrying Error_Null
+func vC14CountNullAcks(out []byte) int {
+	n := 0
+	for len(out) >= headerSize {
+		tp := out[0]
+		size := int(out[1]) | int(out[2])<<8 | int(out[3])<<16 | int(out[4])<<24
+		if len(out) < headerSize+size {
+			break
+		}
+		body := out[headerSize : headerSize+size]
+		if tp == msgTypeAck {
+			ack := &handshakeproto.Ack{}
+			if ack.UnmarshalVT(body) == nil && ack.Error == handshakeproto.Error_Null {
+				n++
+			}
+		}
+		out = out[headerSize+size:]
+	}
+	return n
+}
+
 // VerifC14OneSide: against an arbitrary peer a side reports success only if the
 // peer's credential frame passed the checker and the final ack was Null.
 func VerifC14OneSide() {
@@ -147,6 +168,15 @@ func VerifC14OneSide() {
 	}
 	rt.Assert(c.maxRead <= sizeLimit, "never-reads-more-than-the-size-limit")
 	if err != nil {
+		// same verdict on both ends: a failing side never tells the peer "all good".  The accepting
+		// side writes its Null ack only as its very last step; the dialling side writes exactly one
+		// (after accepting the peer's credential) and answers any later failure with an error ack.
+		nullAcks := vC14CountNullAcks(c.out)
+		if incoming {
+			rt.Assert(nullAcks == 0, "failing-side-sends-no-success-ack")
+		} else {
+			rt.Assert(nullAcks <= 1, "failing-side-sends-no-success-ack")
+		}
 		rt.Reach("failed")
 		return
 	}
